@@ -37,6 +37,8 @@ def _injective(e: ast.AST, param: str) -> tuple[str, str]:
             return "lossy", f"`{fn}` rounds the genome before it is rendered"
         if last == "tobytes" and isinstance(e.func, ast.Attribute):
             return _inner_array(e.func.value, param)
+        if last in ("hex", "decode") and isinstance(e.func, ast.Attribute) and isinstance(e.func.value, ast.Call):
+            return _injective(e.func.value, param)
         if last == "tolist" and isinstance(e.func, ast.Attribute):
             return _inner_array(e.func.value, param)
         if fn in ("str", "repr") and e.args:
